@@ -12,14 +12,17 @@ Inductive qaction :=
 | QStart (c : nat)                 (* ExchangeContext of call c begins; runs until its exchange is blocked on a connection or it returns *)
 | QSet (n : nat) (r : rres)        (* from now on connection n answers r *)
 | QFinish (c : nat) (ok : bool)    (* the exchange call c is blocked in ends with a reply / with an error *)
-| QTClose.
+| QTClose
+| QCancel (c : nat).               (* the context of call c, blocked in its exchange, ends *)
 
 (** One pass of the retry loop of call [c]: the visits of its scan in order, where it landed
     (connection + 1; 0: no reservation), whether a connection was created for it. *)
 Record qatt := mkQA { qa_call : nat; qa_visits : list visit; qa_landed : N; qa_created : bool }.
 
-(** Return of a call: 0 reply, 1 transport closed, 2 new connection refused the reservation, 3 the exchange's error. *)
-Record qobs := mkQO { q_atts : list qatt; q_ret : list (nat * N); q_pool : N }.
+(** Return of a call: 0 reply, 1 transport closed, 2 new connection refused the reservation, 3 the exchange's
+    error, 4 the caller's context. [q_leaked]: reservations handed out by connections on which neither
+    ExchangeReserved nor WithdrawReserved was ever called (at rest). *)
+Record qobs := mkQO { q_atts : list qatt; q_ret : list (nat * N); q_pool : N; q_leaked : N }.
 
 Inductive case := CPool (script : list (qaction * qobs)).
 
@@ -101,6 +104,20 @@ Definition exec_qaction (s : jst) (a : qaction) (o : qobs) : option jst :=
         | _, _ => None
         end
     end
+  | QCancel c =>
+    let k := j_calls s c in
+    match k_conn k with
+    | None => None
+    | Some _ =>
+      if may_retry pipeline_cfg (k_retry k) (mkAtt (k_new k) false true) then
+        (* the loop does not look at the context: one more pass, which then fails on the dead context *)
+        None
+      else
+        match atts_of c o, ret_of c o with
+        | [], Some 4 => Some (mkJ (j_pool s) (j_mode s) (gupd (j_calls s) c (mkQC None false (k_retry k) true)))
+        | _, _ => None
+        end
+    end
   | QTClose =>
     match pstep (j_pool s) PTClose with
     | Some (p1, _) => if (length (q_atts o) =? 0)%nat then Some (mkJ p1 (j_mode s) (j_calls s)) else None
@@ -115,7 +132,7 @@ Fixpoint exec_qscript (s : jst) (sc : list (qaction * qobs)) : bool :=
     match exec_qaction s a o with
     | Some s1 =>
       (* the transport's own count of pooled connections; after Close the map is kept *)
-      (N.of_nat (length (pt_pool (j_pool s1))) =? q_pool o) && exec_qscript s1 t
+      (N.of_nat (length (pt_pool (j_pool s1))) =? q_pool o) && (q_leaked o =? 0) && exec_qscript s1 t
     | None => false
     end
   end.
@@ -173,8 +190,14 @@ Fixpoint spec_walk (c07 c08 c09 : bool) (tk : qtrk) (sc : list (qaction * qobs))
          else if t_passes tk c <? 2 then (length (atts_of c o) =? 1)%nat      (* at least one transparent retry *)
          else true)
       | QFinish c true => match ret_of c o with Some 0 => true | _ => false end
+      | QCancel c =>
+        (* C07: the call returns promptly with the context's error; C09: it takes no further reservation *)
+        (negb c07 || match ret_of c o with Some 4 => true | _ => false end)
+        && (negb c09 || (length (atts_of c o) =? 0)%nat)
       | _ => true
-      end in
+      end
+      (* C09: a reservation is always exchanged on or withdrawn (capacity is not lost to abandoned reservations) *)
+      && (negb c09 || (q_leaked o =? 0)) in
     let tk2 :=
       match a with
       | QSet n r => mkQT (gupd (t_mode tk1) n r) (t_created tk1) (t_dropped tk1) (t_passes tk1) (t_lastnew tk1) (t_closed tk1)
@@ -192,7 +215,7 @@ Definition spec_c09 (c : case) : bool := match c with CPool sc => spec_walk fals
 Definition nontrivial (c : case) : bool :=
   match c with CPool sc =>
     (2 <=? length (filter (fun ao => match fst ao with QStart _ => true | _ => false end) sc))%nat
-    && existsb (fun ao => match fst ao with QSet _ _ | QFinish _ false | QTClose => true | _ => false end) sc
+    && existsb (fun ao => match fst ao with QSet _ _ | QFinish _ false | QTClose | QCancel _ => true | _ => false end) sc
   end.
 
 (** All three at once (stand-alone driver harness/cmd/ppool). *)
